@@ -2,6 +2,7 @@ import Lean.Data.Json
 import PfdlModel.Api
 import PfdlModel.Check
 import PfdlModel.ExprParse
+import PfdlModel.Surface
 import PfdlModel.Denter
 /-! Line protocol driver: one JSON case per input line, one JSON result per output line. -/
 open Lean Pfdl
@@ -371,6 +372,15 @@ def runExpr (j : Json) : Except String Json := do
   | some ts =>
     let toks ← (← getArr ts).toList.mapM tokOf
     fields := ("parsed", match ExprParse.parse toks with | some e => exprJson e | none => .str "no-parse") :: fields
+    match fieldOpt j "surface" with
+    | some sj =>
+      let s ← exprOf sj
+      let r := Surface.rot s
+      fields := ("surface_tokens_ok", .bool (Surface.tokStr (ExprParse.flat s) == Surface.tokStr toks)) ::
+        ("ord_canon", .bool (Surface.canonB Surface.ordTable Generated.unaryPrec 0 s)) ::
+        ("rot_gram_canon", .bool (Surface.canonB Generated.precTable Generated.unaryPrec 0 r)) ::
+        ("rot", exprJson r) :: fields
+    | none => pure ()
   | none => pure ()
   pure (Json.mkObj fields)
 
